@@ -3,6 +3,7 @@ package checks
 import (
 	"bytes"
 	"fmt"
+	"io"
 	"strings"
 	"sync"
 	"time"
@@ -22,6 +23,9 @@ type C02Case struct {
 	Limit   int64  `json:"limit"`
 	Cuts    []int  `json:"cuts"`               // -1 in first position: one octet per segment; offsets are relative to the start of the message
 	LineMax int    `json:"line_max,omitempty"` // Server.MaxLineLength (0: default); above 4096 it exceeds the read buffer
+	// Verdict: "" (accept/reject as Reject says) | "unexpected-eof": the backend returns io.ErrUnexpectedEOF (wrapped), an
+	// error value that ALSO means "the connection ended" elsewhere - here the connection is alive
+	Verdict string `json:"verdict,omitempty"`
 }
 
 const c02Follow = "MAIL FROM:<okmark1@x>\r\nRCPT TO:<okmark2@x>\r\nNOOP\r\n"
@@ -93,6 +97,9 @@ func evalC02(c C02Case) *h.Finding {
 	var verdict error
 	if c.Reject {
 		verdict = h.RejErr("message")
+	}
+	if c.Verdict == "unexpected-eof" {
+		verdict = fmt.Errorf("decoding the message: %w", io.ErrUnexpectedEOF)
 	}
 	be.Plan = func(int) h.DataPlan { return h.DataPlan{Max: c.ReadMax, Verdict: verdict, KeepErr: true} }
 	pro := hello(c.Mode) + "MAIL FROM:<ok@a.example>\r\nRCPT TO:<ok@b.example>\r\nDATA\r\n"
@@ -235,7 +242,7 @@ func C02(tier string) int {
 	if tier == "thorough" {
 		maxTok = 4
 	}
-	run.Rule = fmt.Sprintf("messages = all sequences of <=%d tokens from %q, terminated by CRLF.CRLF and followed by pipelined marker commands; x backend {reads all, 0, 1, n/2 octets} x {accept, reject} x size limit {none, n/2, n, n+10} x {SMTP, LMTP plain backend, LMTP per-recipient backend} x segmentation {one segment, one octet per segment, every 2-split from 4 octets before to 6 after the end marker; one segment also with MaxLineLength 8192, i.e. above the read-buffer size}. Distinct by construction; non-trivial = message contains a bait command or a terminator look-alike. Plus messages with a line longer than MaxLineLength at 4 positions (refused and closed, or the message still ends at its end marker). Oracle: no bait address reaches the backend; replies and backend calls after the final DATA reply equal those the lines after the first true end marker (ref.Unstuff) produce on a connection that just finished a trivial transaction (differential).", maxTok, c02Tokens)
+	run.Rule = fmt.Sprintf("messages = all sequences of <=%d tokens from %q, terminated by CRLF.CRLF and followed by pipelined marker commands; x backend {reads all, 0, 1, n/2 octets} x {accept, reject} x size limit {none, n/2, n, n+10} x {SMTP, LMTP plain backend, LMTP per-recipient backend} x segmentation {one segment, one octet per segment, every 2-split from 4 octets before to 6 after the end marker; one segment also with MaxLineLength 8192, i.e. above the read-buffer size}. Distinct by construction; non-trivial = message contains a bait command or a terminator look-alike. Plus lines of 4094..12288 octets (multiples of the 4096-octet buffer +-1) with a backend that returns early, the backend verdict io.ErrUnexpectedEOF on a live connection, and messages with a line longer than MaxLineLength at 4 positions (refused and closed, or the message still ends at its end marker). Oracle: no bait address reaches the backend; replies and backend calls after the final DATA reply equal those the lines after the first true end marker (ref.Unstuff) produce on a connection that just finished a trivial transaction (differential).", maxTok, c02Tokens)
 	run.Assumptions = []string{"reply codes of the DATA command itself are judged by C04/C06, not here", "the reference run (same server code, trivial message) defines what the follow-up commands do; only its agreement with the run under test is judged"}
 	var msgs [][]int
 	var rec func(cur []int)
@@ -306,6 +313,32 @@ func C02(tier string) int {
 		}
 		run.Outcomes(out)
 	})
+	// lines whose length is a multiple of the read-buffer size (4096), a backend that returns early (the server skips the
+	// rest itself), a line limit above all that; and the backend verdict io.ErrUnexpectedEOF
+	for _, mode := range []string{"smtp", "lmtp", "lmtp-rcpt"} {
+		for _, n := range []int{4094, 4095, 4096, 4097, 8191, 8192, 8193, 12288} {
+			for _, rm := range []int{0, 10, -1} {
+				msg := []byte("first\r\n" + strings.Repeat("x", n) + "\r\nMAIL FROM:<bait@x>\r\nlast")
+				c := C02Case{Mode: mode, Msg: msg, ReadMax: rm, Reject: rm >= 0, LineMax: 20000}
+				f := evalC02(c)
+				run.Eval(true)
+				if f != nil {
+					c.Show = fmt.Sprintf("a line of %d octets", n)
+					cc := c
+					run.Violate("c02", cc, f, func() *h.Finding { return evalC02(cc) })
+				}
+			}
+		}
+		for _, rm := range []int{0, 3, -1} {
+			c := C02Case{Mode: mode, Msg: []byte("first\r\nMAIL FROM:<bait@x>\r\nlast"), ReadMax: rm, Verdict: "unexpected-eof"}
+			f := evalC02(c)
+			run.Eval(true)
+			if f != nil {
+				cc := c
+				run.Violate("c02", cc, f, func() *h.Finding { return evalC02(cc) })
+			}
+		}
+	}
 	for _, mode := range []string{"smtp", "lmtp", "lmtp-rcpt"} {
 		for _, where := range []string{"only", "last", "before-dot-line", "middle"} {
 			for _, seg := range []string{"one", "octet"} {
